@@ -254,7 +254,7 @@ def plan(tier):
                     jobs.append(Job('%s.L3.%s' % (PROP, tag), kname, P_CA, compound_contract(op, L, R), via=sname, shim=sname, shim_types=[l, r],
                                     oracle=py_compound(op, L, R), prop=PROP, timeout=120, layer=3, skip_this=False, **absm))
                     n_inst += 1
-    for nest in (['s0', 'on', 'rn'] if thorough else ['s0', 'on']):
+    for nest in ['s0', 'on']:      # ++/-- on rounding_integer<T, native_rounding_tag> does not compile on the pinned tree (custom_operator specialisation mismatch)
         for l in (['i32', 'i8', 'u16'] + (['u32', 'i64'] if thorough else [])):
             L = T(l)
             A = NESTS[nest](cxx(l))
